@@ -6,9 +6,14 @@
     without error using only Prop1-3, modus ponens, instantiation and the declared axioms.
 
     The statements below are about Gen/PropLib.v, which translators/proplib.py regenerates from the
-    current Python source on every run; [all_specs] / [all_wf] are the generated conjunctions of one
-    [<m>_spec] (statement read off the docstring, or Lib/Extra.v) and one [<m>_wf] per method.
-    Quantification is over all [pat] (not only propositional patterns) and all premise thunks. *)
+    current Python source on every run (proofs/propositional.py, tautology.py, proofs/substitution.py,
+    proofs/small_theory.py; proofs/kore.py and proofs/definedness.py declare notations only);
+    [all_specs] / [all_wf] / [all_replays] are the generated conjunctions of one [<m>_spec] (statement
+    read off the docstring, or Lib/Extra.v), one [<m>_wf] and one [<m>_replays] per method.
+    Quantification is over all [pat] (not only propositional patterns) and all premise thunks.
+    The model of [Pattern.instantiate] is the generator's own (PTerm/Model.v [py_inst]: constraints
+    ignored, capture-unaware), so (1)-(2) hold for ALL patterns; whether the checker agrees is a
+    hypothesis of (4) only, and (5) shows it cannot be dropped. *)
 From Coq Require Import NArith List Bool.
 From Pi2 Require Import ML.Syntax ML.Subst ML.Machine Lib.Term Lib.TermFacts Lib.Replay Lib.Embed Gen.PropLib Gen.PropLibSpec.
 Import ListNotations.
@@ -20,83 +25,139 @@ Proof. exact all_specs_hold. Qed.
 Print Assumptions C10_schemas.
 
 (** (2) the stored conclusion is what replaying the term by the documented rules yields (the run-time
-    re-check of proof.py:45 cannot fail), for premises that themselves replay *)
+    re-check of proof.py:45 cannot fail), for premises that themselves replay.  [owf g axs]: [g] says
+    whether Generalization may occur; the propositional / tautology / small-theory lemmas are stated
+    for every [g] (so in particular without it), [universal_gen] / [top_univgen] for [g = true]. *)
 Theorem C10_stored_conclusion_replays : all_wf.
 Proof. exact all_wf_hold. Qed.
 Print Assumptions C10_stored_conclusion_replays.
 
-(** (1)+(2) combined for any thunk: it is a term whose replay gives the schema and whose leaves are
-    only Prop1-3 (MP / Inst nodes by typing) and declared assumptions *)
-Theorem C10_delivers : forall axs x s, conc x = Some s -> owf axs x -> delivers axs x s.
+(** (1)+(2) combined for any thunk: it is a term whose replay WITHOUT Generalization gives the schema
+    and whose leaves are only Prop1-3 (MP / Inst nodes by typing) and declared assumptions *)
+Theorem C10_delivers : forall axs x s, conc x = Some s -> owf false axs x -> delivers axs x s.
 Proof. exact conc_owf_delivers. Qed.
 Print Assumptions C10_delivers.
 
-Theorem C10_uses_only : forall axs t c, static_conc axs t = Some c -> uses_only axs t = true.
+Theorem C10_uses_only : forall axs t c, static_conc false axs t = Some c -> uses_only axs t = true.
 Proof. exact static_conc_uses_only. Qed.
 Print Assumptions C10_uses_only.
 
-(** (3) replay on the checker's stack machine (ML/Machine.v, sound guards): the rule instructions of a
-    term whose static conclusion is [c] leave [Proved c] on the stack.
-    PARTIAL: the instructions that build the plug patterns of [Instantiate] are abstracted (plugs are
-    pushed as already-built [TPat] entries); assumptions are loaded from memory slots by [Load].
-    Full statement (compile to bytes, [exec] on the byte stream incl. pattern construction and
-    well-formedness of Mu/MetaVar operands) is C02's [compile_correct]. *)
+(** (3) replay of the RULE instructions on the checker's stack machine (ML/Machine.v [step_i], sound
+    guards).  PARTIAL: the instructions that build the plug patterns of [Instantiate] are abstracted
+    (plugs are pushed as already-built [TPat] entries); [checker_agrees]: on every Instantiate of the
+    term the checker computes what the generator advertised.  The full statement is (4). *)
 Theorem C10_replays_partial : forall axs t c st,
-  static_conc axs t = Some c ->
+  static_conc true axs t = Some c ->
+  checker_agrees axs t = true ->
   axioms_in_memory axs (memory st) ->
   replay t st = Some (push (TProved c) st).
 Proof. exact replay_correct. Qed.
 Print Assumptions C10_replays_partial.
 
-(** (4) FULL replay, through C02's stack-compiler correctness ([PTerm/Compile.v compile_correct],
-    [PTerm/LibWf.v lib_wf]).  [compiles_to axs x s] (Lib/Embed.v): [x] is a thunk [(t, s)], [t] replays by the
-    documented rules to [s] using only Prop1-3 / MP / Instantiate / declared axioms, and for EVERY transformer
-    stack [ls] (memoiser with any set), symbol table and serialiser state in which the serialiser emits bytes
-    [bs] for the embedded term ([PTerm.Model.compile ls axs (emb t) tbl st = Some (tbl', st', bs, c)]; it
-    declines only for ids/indices >= 256 or an assumption missing from memory), [c = s] and
+(** (4) FULL replay, through C02's stack-compiler correctness ([PTerm/Compile.v compile_correct]).
+    [compiles_to axs x s] (Lib/Embed.v): [x] is a thunk [(t, s)], the embedded term's static conclusion
+    is [s], and for EVERY transformer stack [ls] (memoiser with any set), symbol table and serialiser state
+    in which the serialiser emits bytes [bs] for the term ([PTerm.Model.compile ls axs (emb t) tbl st =
+    Some (tbl', st', bs, c)]; it declines for ids / indices >= 256, an assumption missing from memory, a
+    Generalization over a non-fresh variable), [c = s] and
       [exec guards_sound ph bs (mkst K mem C) = Some (mkst (TProved (map_sym T s) :: K) mem' C)]
     on ANY checker stack [K], in any phase -- pattern construction of all plugs, Save/Load included.
-    [all_replays] is the generated conjunction, one statement per translated method [m]:
-      docstring rules:  [ax_incl <class axioms> axs -> pok <pattern args> ->
-                         (conc h = Some <premise schema> -> owf axs h -> sok h ->)*
+    [all_replays], one statement per translated method [m]:
+      docstring rules:  [ax_incl <class axioms> axs -> pwf <pattern args> ->
+                         (conc h = Some <premise schema> -> gok axs h -> [csimple h] ->)*
                          compiles_to axs (m args) <schema instance>]
       Extra.v rules:    the same premises, [conc (m args) = Some s -> compiles_to axs (m args) s]
                         ([s] is characterised by [<m>_spec]).
-    CLASS COVERED ([C02_lib_wf]'s): [pok p] = [p] substitution-free, all metavariables unconstrained, every
-    Mu positive ([LibWf.simple p && Model.pat_wf p]) for every pattern argument; [sok h] = the premise's term
-    is in C02's propositional fragment ([simple_term]) and its conclusion is [pok].  Outside that class the
-    unrestricted statement is FALSE (C02_refuted_*: non-positive Mu, redundant substitution, constrained
-    metavariables are accepted by the toolkit and rejected by the checker). *)
+    CLASS COVERED (wider than [C02_lib_wf]'s):
+      [pwf p] = [PTerm.Model.pat_wf p]: ANY meta-pattern the checker lets one build -- constrained
+         metavariables (holes disjoint from e_fresh), pending ESubst/SSubst (non-redundant, meta-headed),
+         positive Mu;
+      [gok axs h]: the premise's term passes C02's [wf_for_checker], its stored conclusion is the static
+         one and is [pwf];
+      [csimple h] (conclusion substitution-free with unconstrained metavariables) is required ONLY of the
+         premise that the six *_match* rules re-instantiate; it cannot be dropped: (5). *)
 Theorem C10_replays : all_replays.
 Proof. exact all_replays_hold. Qed.
 Print Assumptions C10_replays.
 
 Theorem C10_replays_any_thunk : forall axs x s,
-  conc x = Some s -> owf axs x -> sok x -> compiles_to axs x s.
+  conc x = Some s -> gok axs x -> compiles_to axs x s.
 Proof. exact replays_full. Qed.
 Print Assumptions C10_replays_any_thunk.
 
-(** non-vacuity of (4): the hypotheses hold and the serialiser does emit bytes (here 1 913 of them for a 128-rule proof, with
-    the memoiser on), which the checker model executes to [Proved (x0 -> x0 /\ x0)] *)
-Example C10_replays_nonvacuous :
-  let x := iand (imp_refl (EVar 0)) (imp_refl (EVar 0)) in
-  sok x /\ owf [] x /\
-  exists t s tbl' st' bs,
-    x = Some (t, s) /\
-    PM.compile [PM.LMemo [Imp (EVar 0) (EVar 0)]] [] (emb t) [] (PM.mksst [] [] [] Proof) = Some (tbl', st', bs, s) /\
-    (1900 <? N.of_nat (length bs)) = true /\
-    exec guards_sound Proof bs st0 = Some (mkst [TProved s] (map (PS.map_term tbl') (PM.s_mem st')) []).
+(** the class of [C02_lib_wf] (everything substitution-free, unconstrained, Mu-positive) is a special case *)
+Theorem C10_replays_covers_lib_wf_class : forall g axs x, owf g axs x -> sok x -> gok axs x.
+Proof. exact sok_gok. Qed.
+
+(** (5) where (4) stops: a *_match* rule re-instantiates a premise whose conclusion is NOT simple.
+    Both premises are declared axioms that the checker accepts ([gok], [pwf]); the toolkit builds the
+    thunk, its stored conclusion replays by the generator's own rules, the serialiser emits bytes --
+    and the checker model REJECTS them. *)
+Definition w1_a1 : pat := Imp (phi 1) (MVar 0 [0] [] [] [] []).   (* phi1 -> phi0{x0 fresh} *)
+Definition w1_a2 : pat := Imp (EVar 0) (Sym 1).                   (* x0 -> s1 *)
+(** D9d through a library rule: match_single binds the x0-fresh metavariable to x0 itself;
+    the generator ignores the constraint, the checker's Instantiate panics *)
+Theorem C10_replays_refuted_constrained :
+  let axs := [w1_a1; w1_a2] in
+  let h1 := load_ax axs w1_a1 in
+  let h2 := load_ax axs w1_a2 in
+  gok axs h1 /\ gok axs h2 /\ conc (imp_trans_match1 h1 h2) = Some (Imp (phi 1) (Sym 1)) /\
+  toolkit_builds_checker_rejects axs (imp_trans_match1 h1 h2).
 Proof.
-  cbv zeta. split; [|split].
-  - apply iand_sok; apply imp_refl_sok; reflexivity.
+  cbv zeta. split; [|split; [|split]].
+  - apply load_ax_gok; [apply ax_incl_refl | reflexivity].
+  - apply load_ax_gok; [apply ax_incl_refl | reflexivity].
+  - vm_compute. reflexivity.
+  - unfold toolkit_builds_checker_rejects. do 5 eexists.
+    split; [vm_compute; reflexivity|]. split; [vm_compute; reflexivity|].
+    split; vm_compute; reflexivity.
+Qed.
+Print Assumptions C10_replays_refuted_constrained.
+
+Definition w2_a1 : pat := Imp (ESub (phi 0) 1 (EVar 2)) (phi 0).    (* phi0[x2/x1] -> phi0 *)
+Definition w2_a2 : pat := Imp (Ex 2 (EVar 1)) (Sym 1).               (* (exists x2. x1) -> s1 *)
+(** D9c through a library rule: the re-instantiated premise carries a pending substitution; the
+    generator's apply_esubst captures x2 under the binder, the checker's refuses *)
+Theorem C10_replays_refuted_capture :
+  let axs := [w2_a1; w2_a2] in
+  let h1 := load_ax axs w2_a1 in
+  let h2 := load_ax axs w2_a2 in
+  gok axs h1 /\ gok axs h2 /\
+  conc (imp_trans_match1 h1 h2) = Some (Imp (Ex 2 (EVar 2)) (Sym 1)) /\
+  toolkit_builds_checker_rejects axs (imp_trans_match1 h1 h2).
+Proof.
+  cbv zeta. split; [|split; [|split]].
+  - apply load_ax_gok; [apply ax_incl_refl | reflexivity].
+  - apply load_ax_gok; [apply ax_incl_refl | reflexivity].
+  - vm_compute. reflexivity.
+  - unfold toolkit_builds_checker_rejects. do 5 eexists.
+    split; [vm_compute; reflexivity|]. split; [vm_compute; reflexivity|].
+    split; vm_compute; reflexivity.
+Qed.
+
+(** non-vacuity of (4): the hypotheses hold -- with a CONSTRAINED metavariable and a PENDING SUBSTITUTION
+    among the arguments -- and the serialiser does emit bytes, which the checker model executes to
+    [Proved (a -> a /\ a)] *)
+Definition nv_a : pat := Imp (MVar 3 [1] [] [] [] [2]) (ESub (phi 0) 1 (Sym 4)).
+Example C10_replays_nonvacuous :
+  let x := iand (imp_refl nv_a) (imp_refl nv_a) in
+  pwf nv_a = true /\ gok [] x /\ owf false [] x /\
+  exists t s tbl' st' bs,
+    x = Some (t, s) /\ s = Imp nv_a (p_and nv_a nv_a) /\
+    PM.compile [PM.LMemo [Imp nv_a nv_a]] [] (emb t) [] (PM.mksst [] [] [] Proof) = Some (tbl', st', bs, s) /\
+    (1900 <? N.of_nat (length bs)) = true /\
+    exec guards_sound Proof bs st0 = Some (mkst [TProved (PS.map_sym tbl' s)] (map (PS.map_term tbl') (PM.s_mem st')) []).
+Proof.
+  cbv zeta. split; [reflexivity|]. split; [|split].
+  - apply iand_gok; [apply ax_incl_nil | |]; (apply imp_refl_gok; [apply ax_incl_nil | reflexivity]).
   - apply iand_wf; [apply ax_incl_nil | |]; apply imp_refl_wf; apply ax_incl_nil.
-  - vm_compute. do 5 eexists. split; [reflexivity|]. split; [reflexivity|]. split; reflexivity.
+  - vm_compute. do 5 eexists. split; [reflexivity|]. split; [reflexivity|]. split; [reflexivity|]. split; reflexivity.
 Qed.
 
 (** non-vacuity: premises of the required shape exist, are replayable, and the rules then deliver *)
 Example C10_nonvacuous_rule :
   let h := imp_provable (EVar 2) (imp_refl (App (Sym 0) (EVar 1))) in
-  conc h = Some (Imp (EVar 2) (Imp (App (Sym 0) (EVar 1)) (App (Sym 0) (EVar 1)))) /\ owf [] h /\
+  conc h = Some (Imp (EVar 2) (Imp (App (Sym 0) (EVar 1)) (App (Sym 0) (EVar 1)))) /\ owf false [] h /\
   delivers [] (imim_l (Ex 3 (EVar 3)) h)
     (Imp (Imp (Imp (App (Sym 0) (EVar 1)) (App (Sym 0) (EVar 1))) (Ex 3 (EVar 3))) (Imp (EVar 2) (Ex 3 (EVar 3)))).
 Proof.
@@ -110,7 +171,18 @@ Qed.
 
 Example C10_nonvacuous_replay :
   exists t c, term_of (iand (imp_refl (EVar 0)) (imp_refl (EVar 0))) = Some t /\
-              static_conc [] t = Some c /\ replay t st0 = Some (push (TProved c) st0) /\ (psize t > 100)%N.
+              static_conc true [] t = Some c /\ checker_agrees [] t = true /\
+              replay t st0 = Some (push (TProved c) st0) /\ (psize t > 100)%N.
 Proof.
-  vm_compute. eexists. eexists. split; [reflexivity|]. split; [reflexivity|]. split; reflexivity.
+  vm_compute. eexists. eexists. repeat split; reflexivity.
+Qed.
+
+(** Generalization (proofs/substitution.py): [top_univgen] proves [forall x0 . T] and replays *)
+Example C10_top_univgen :
+  conc top_univgen = Some (p_neg (Ex 0 (p_neg p_top))) /\ owf true substitution_axioms top_univgen /\
+  gok substitution_axioms top_univgen.
+Proof.
+  split; [exact top_univgen_spec|]. split.
+  - apply top_univgen_wf. apply ax_incl_refl.
+  - apply top_univgen_gok. apply ax_incl_refl.
 Qed.
